@@ -1,7 +1,7 @@
 (** * spec_apply: does an observed result of apply(rule, data) satisfy the specification?
       The observation is compared with the reference semantics [ref_eval]: the same value and
-      the same log lines when it succeeds, an error when it fails (which error, and what was
-      logged before failing, is not constrained). *)
+      the same log lines when it succeeds, an error when it fails (see [matches_ref] for what is
+      said about lines logged before failing). *)
 From Coq Require Import List ZArith NArith Bool.
 From JL Require Import Base.Json Base.Str Base.JsonText Base.Monad Spec.Specs Spec.OpSpecs Spec.RefEval.
 Import ListNotations.
@@ -13,10 +13,22 @@ Fixpoint lines_eqb (a b : list str) : bool :=
   | _, _ => false
   end.
 
+(** [a] is a prefix of [b] *)
+Fixpoint lines_prefixb (a b : list str) : bool :=
+  match a, b with
+  | [], _ => true
+  | x :: a', y :: b' => str_eqb x y && lines_prefixb a' b'
+  | _ :: _, [] => false
+  end.
+
+(** On failure, which error it is is not constrained, and an implementation may fail earlier
+    than the reference semantics does (it may reject a malformed operand before evaluating its
+    neighbours) - but it may not have logged anything the reference semantics would not have
+    logged before failing: the lines observed are a prefix of the reference trace. *)
 Definition matches_ref (rule data : value) (logs : list str) (res : option value) : bool :=
   match ref_eval rule data, res with
   | (t, Ok v), Some v' => value_same v v' && lines_eqb (map json_text t) logs
-  | (_, Err _), None => true
+  | (t, Err _), None => lines_prefixb logs (map json_text t)
   | _, _ => false
   end.
 
